@@ -13,6 +13,28 @@ includes all small cages and bridged systems, whose smallest ring set is not
 unique - plus ten named cages above that bound.  The ring set that counts is
 the one carried by the molecule object the caller passes (the reference reads
 that object); a matcher that re-perceives rings differently is seen there.
+
+Fourth wave (mc/domains/w4_c08.py), three more families:
+
+S  element vocabulary: every element symbol of the periodic table (all but
+   `Xe`, which the language reads as class `X` + junk) in ordinary and in
+   lower-case ("aromatic") spelling, written as first atom (with / without
+   `?`), as bonded atom and as target of a plain / negated neighbour
+   constraint, against a bare atom of each of the 118 elements + aromatic and
+   non-aromatic compounds of b, c, n, o, p, s, se, te, si, as + compounds whose
+   symbols share a first letter (Cl/Co/Cu ~ C, Si/Se/Sn ~ S ...).
+N  embedding counts: symmetric two-shell stars (centre, k = 1..4 equal arms,
+   j = 0..3 hydrogens on every arm; up to 17 fragment atoms) against every
+   alkane up to 6 (thorough 7) carbons + curated symmetric molecules; expected
+   match lists from 0 to 31104 tuples are compared in full, including the
+   pairs whose raw match count exceeds 10000 (the batch size the matcher
+   first asks RDKit for; it used to stop there - defect repaired in /repo).
+   Those pairs are judged by a separate loop so that a truncated result has a
+   key of its own (N:capacity-truncated).
+K  ways of calling: GetQueryMatches(m), (m, 0 | False | 1 | True), (m, debug=
+   the same four), (mol=m), (mol=m, debug=True) - every form on every fragment
+   of a 6108-fragment set x 18 hydrogen-rich molecules, each call compared with
+   the reference (the debug flag may print, it may not change the result).
 """
 import os
 
@@ -22,6 +44,7 @@ from ..domains import fragments as F
 from ..domains import molecules as MD
 from ..domains import libs
 from ..domains import w3_c08 as W3
+from ..domains import w4_c08 as W4
 
 LEVEL = 'exploration'
 CORE = ['C', 'CC', 'C=C', 'C#C', 'CO', 'C=O', 'CCO', 'CC=O', 'C1CC1', 'C1CO1',
@@ -49,19 +72,37 @@ BOUND = {
              '{ring, nonring, single, any} x (none | 8 ring constraints)^2; 16^2 ordered '
              'constraint pairs on one atom; 3-atom chains/triangles over {ring, any} x 16 '
              'constraints) x all 109 saturated carbon skeletons (connected graphs, degree '
-             '<= 4) with 1..6 atoms + 10 named cages (118 distinct molecules)',
+             '<= 4) with 1..6 atoms + 10 named cages (118 distinct molecules); '
+             'S: 1175 fragments (235 element symbols = 117 ordinary + 118 lower-case '
+             'spellings, each as `sym`, `sym?`, bonded atom, target of a plain and of a '
+             'negated neighbour constraint) x 180 molecules (a bare atom of each of the '
+             '118 elements + 62 aromatic / non-aromatic / first-letter look-alike '
+             'compounds); N: 144 two-shell stars (centres {C, $?} x arms {H, C, $?} x '
+             'bonds {single, any} x k = 1..4 arms x j = 0..3 H per arm, 2..17 atoms) x 33 '
+             'molecules (13 alkanes with <= 6 carbons + 20 curated), full comparison '
+             '(expected lists up to 31104 tuples, 88 pairs beyond 10000 raw matches); '
+             'K: 10 call '
+             'forms of GetQueryMatches (debug absent / 0 / False / 1 / True by position '
+             'and keyword, molecule by keyword) x 6108 fragments (all of A; C {c} for all '
+             '3144 constraints; all 1440 unconstrained two-atom fragments of C; 768 '
+             '3-atom topologies over {C?, $?}) x 18 molecules',
     'thorough': 'as quick with C x 40 constraints, D + 4-atom chains/stars/'
                 'squares, G on a 4000-fragment slice, molecules M(3) C/O/N with '
                 'radicals (full set) and a 150-molecule core; R: the same 1126 '
                 'fragments x all 462 saturated carbon skeletons with 1..7 atoms + '
-                'the named cages'}
+                'the named cages; S and K as quick; N: 312 stars (centres {C, $?, X} x '
+                'arms {H, C, $?, X}) x 45 molecules (22 alkanes with <= 7 carbons + 23 '
+                'curated)'}
 RULE = ('every fragment of the families x every molecule of the set is read '
         'and matched by the implementation and by the reference; compared is '
         'the sorted list of match tuples (duplicates significant).  An '
         'evaluation is non-trivial when the expected match list is non-empty, '
         'or every fragment atom has a candidate by element class alone (so a '
         'suffix, prefix, bond kind or constraint - not the vocabulary - '
-        'decides the outcome)')
+        'decides the outcome).  In family K every (fragment, molecule, call '
+        'form) is one evaluation.  In family N a (fragment, molecule) whose '
+        'all-wildcard star has >= 10000 embeddings is compared in full by a '
+        'separate loop (keys N:capacity-truncated, N:beyond-capacity:extra)')
 ASSUMPTIONS = ['RDKit ring perception (SSSR) defines "ring of size n" and "in n '
                'rings" for implementation and reference alike',
                'where the smallest ring set is not unique (cages, bridged systems) '
@@ -72,7 +113,15 @@ ASSUMPTIONS = ['RDKit ring perception (SSSR) defines "ring of size n" and "in n 
                'and duplicate labels are outside the alphabet',
                '`M` only meets molecules whose atoms are H/C/N/O/Pt/Ru',
                'molecules are given as RDKit parses the SMILES (RDKit '
-               'aromaticity model), hydrogens added by the matcher']
+               'aromaticity model), hydrogens added by the matcher',
+               'a matcher that refuses (raises) beyond some larger number of raw '
+               'matches would be reported as N:beyond-capacity:EXC; the enumerated '
+               'space reaches 31104 embeddings',
+               'the element symbol `Xe` cannot be written: `X` is the heavy-atom '
+               'class, implementation and reference reader both call `Xe labeled a` a '
+               'syntax error; lower-case `xe` can be written and is in the alphabet',
+               'lower-case spelling of an element that RDKit never flags aromatic '
+               'denotes the empty set (element and aromatic flag are both required)']
 MANIFEST = dict(
     technique='bounded-exhaustive enumeration of the fragment language x small '
               'molecules vs an independent backtracking matcher',
@@ -86,7 +135,15 @@ MANIFEST = dict(
          'and ring-count constraint, ring prefixes and bonds, alone and '
          'combined) is additionally matched against every saturated carbon '
          'skeleton up to 6 (thorough 7) atoms, cages with a non-unique '
-         'smallest ring set included.',
+         'smallest ring set included.  Every element symbol of the periodic '
+         'table, ordinary and lower-case, is matched in every syntactic position '
+         'against a bare atom of every element and the aromatic compounds of '
+         'b/n/o/p/s/se/te/si.  Symmetric star fragments up to 17 atoms are '
+         'matched against all alkanes up to 6 carbons, so that match lists of '
+         'tens of thousands of tuples (beyond the 10000 raw matches the matcher '
+         'asks for at first) are compared in full.  Every way of calling GetQueryMatches '
+         '(debug flag absent / falsy / truthy, positional / keyword) must give '
+         'the reference result.',
     note='Fragments above 3-4 atoms and molecules above the enumeration bound '
          'only occur through the curated list and the shipped schemes.',
     ref='5/C08')
@@ -99,9 +156,21 @@ def molset(which, tier):
     if key in _MOLS:
         return _MOLS[key]
     from rdkit import Chem
+    plain = which in ('cage', 'elements', 'stars', 'calls')
     if which == 'cage':
         # every saturated carbon skeleton up to 6 (T: 7) atoms + named cages
         smis = W3.skeletons(6 if tier == 'quick' else 7) + W3.CAGES
+    elif which == 'elements':
+        # a bare atom of every element + aromatic / non-aromatic compounds of
+        # the elements that can be aromatic + first-letter look-alikes
+        smis = W4.element_atoms() + W4.ELEMENT_MOLS
+    elif which == 'stars':
+        # every alkane up to 6 (T: 7) carbons + symmetric curated molecules
+        smis = W4.alkanes(6 if tier == 'quick' else 7) + W4.STAR_CURATED
+        if tier == 'thorough':
+            smis += W4.STAR_CURATED_T
+    elif which == 'calls':
+        smis = list(W4.CALL_MOLS)
     elif which == 'core':
         smis = list(CORE)
         if tier == 'thorough':
@@ -121,7 +190,7 @@ def molset(which, tier):
     # different indices), right after the set: anything remembered per
     # compound instead of per molecule object shows up
     extra = []
-    for s, m, g in (out[:60] if which != 'cage' else []):
+    for s, m, g in (out[:60] if not plain else []):
         n = m.GetNumAtoms()
         if n >= 2 and n <= 8:
             m2 = Chem.RenumberAtoms(m, list(reversed(range(n))))
@@ -130,7 +199,7 @@ def molset(which, tier):
     ps = Chem.SmilesParserParams()
     ps.removeHs = False
     for s in (['[2H]CC', '[H]C([H])C', '[H]OC', 'C([H])=C', '[H]C1CC1', '[2H]O',
-               '[H][C]([H])C'] if which != 'cage' else []):
+               '[H][C]([H])C'] if not plain else []):
         m = Chem.MolFromSmiles(s, ps)
         if m is not None:
             extra.append((s + ' (partly explicit H)', m, ringref.G(Chem.AddHs(m))))
@@ -215,6 +284,130 @@ def run_text(R, family, text, mols, base=None, base_text=None):
     return results
 
 
+_RELAXED = {}
+
+
+def relaxed_embeddings(shape, smi, g):
+    """Embeddings of the star of that shape with every atom `any atom` and
+    every bond `any` (reference matcher): an upper bound of the raw
+    substructure matches of every star of the shape, independent of how the
+    implementation splits the work."""
+    key = (shape, smi)
+    if key not in _RELAXED:
+        fr = ringref.parse_fragment(F.render(W4.relaxed_star(*shape)))
+        _RELAXED[key] = len(ringref.ref_matches_g(fr, g))
+    return _RELAXED[key]
+
+
+def run_star(R, shape, text, mols):
+    """Family N.  Molecules on which the shape stays below the matcher's
+    first batch of 10000 raw matches: the ordinary, full comparison of
+    run_text.  At or beyond it: the same comparison, under keys of its own
+    (a truncated result is N:capacity-truncated)."""
+    import collections
+    from pgradd.RINGParser import Read
+    within = [t for t in mols
+              if relaxed_embeddings(shape, t[0], t[2]) < W4.MATCH_CAP]
+    beyond = [t for t in mols
+              if relaxed_embeddings(shape, t[0], t[2]) >= W4.MATCH_CAP]
+    res = run_text(R, 'N', text, within)
+    if res is None:
+        return
+    for r in res:
+        if not isinstance(r, str):
+            R.extra['max_embeddings_compared_in_full'] = max(
+                R.extra['max_embeddings_compared_in_full'], len(r))
+    if not beyond:
+        return
+    fr = ringref.parse_fragment(text)
+    q = Read(text)
+    for smi, m, g in beyond:
+        exp = collections.Counter(ringref.ref_matches_g(fr, g))
+        try:
+            got = collections.Counter(tuple(x) for x in q.GetQueryMatches(m))
+        except Exception as e:    # noqa
+            R.violation('N:beyond-capacity:EXC:' + type(e).__name__,
+                        '%r on %s raised %s: %s' % (text, smi, type(e).__name__, e),
+                        dict(kind='frag', text=text, smiles=smi))
+            continue
+        R.evals += 1
+        if exp:
+            R.nontrivial += 1
+        extra = [x for x in got if got[x] > exp.get(x, 0)]
+        if extra:
+            R.outcomes['beyond-capacity:extra'] += 1
+            R.violation('N:beyond-capacity:extra',
+                        '%r on %s: returned %r which the pattern does not denote '
+                        '(or not that often)' % (text, smi, extra[:4]),
+                        dict(kind='frag', text=text, smiles=smi))
+        elif got == exp:
+            R.outcomes['beyond-capacity:complete'] += 1
+            R.extra['max_embeddings_compared_in_full'] = max(
+                R.extra['max_embeddings_compared_in_full'], sum(exp.values()))
+        else:
+            R.outcomes['beyond-capacity:truncated'] += 1
+            missing = sum((exp - got).values())
+            R.violation('N:capacity-truncated',
+                        '%r on %s: %d of the %d embeddings the pattern denotes are '
+                        'missing from the result' % (text, smi, missing,
+                                                     sum(exp.values())),
+                        dict(kind='frag', text=text, smiles=smi))
+
+
+def run_calls(R, text, mols, forms=None):
+    """Family K: one reading of the fragment, every molecule, every way of
+    calling GetQueryMatches; each call is compared with the reference."""
+    from pgradd.RINGParser import Read
+    fr = ringref.parse_fragment(text)
+    try:
+        q = Read(text)
+    except Exception as e:     # noqa
+        R.evals += 1
+        R.nontrivial += 1
+        R.outcomes['read-failed:' + type(e).__name__] += 1
+        R.violation('K:read-%s:%s' % (type(e).__name__, signature(fr)),
+                    'the fragment %r is in the language but Read raised %s: %s'
+                    % (text, type(e).__name__, e),
+                    dict(kind='frag', text=text, smiles=None))
+        return
+    for smi, m, g in mols:
+        st = {}
+        exp = sorted(ringref.ref_matches_g(fr, g, st))
+        na, nb = m.GetNumAtoms(), m.GetNumBonds()
+        for form in forms or [f[0] for f in W4.CALL_FORMS]:
+            try:
+                got = sorted(tuple(x) for x in W4.call(q, m, form))
+            except Exception as e:    # noqa
+                got = 'EXC:' + type(e).__name__
+            if m.GetNumAtoms() != na or m.GetNumBonds() != nb:
+                R.violation('K:callers-molecule-modified',
+                            'matching %r, called as %s, changed the molecule object '
+                            'it was given (%s)' % (text, form, smi),
+                            dict(kind='call', text=text, smiles=smi, form=form))
+            R.evals += 1
+            if exp or st.get('relaxed'):
+                R.nontrivial += 1
+            if got == exp:
+                R.outcomes['same:nonempty' if exp else 'same:empty'] += 1
+                continue
+            if isinstance(got, str):
+                cls = got
+            else:
+                extra = [x for x in got if x not in exp]
+                missing = [x for x in exp if x not in got]
+                cls = ('extra+missing' if extra and missing else
+                       'extra' if extra else 'missing' if missing else 'multiplicity')
+            R.outcomes['differs:' + cls] += 1
+            R.violation('K:%s:%s' % (cls, form),
+                        '%r on %s called as GetQueryMatches [%s]: implementation %r, '
+                        'reference %r' % (text, smi, form,
+                                          got if isinstance(got, str) else got[:6], exp[:6]),
+                        dict(kind='call', text=text, smiles=smi, form=form))
+    if len(R.samples) < 1:
+        R.sample(dict(family='K', fragment=text, molecules=len(mols),
+                      call_forms=[f[0] for f in W4.CALL_FORMS]), limit=1)
+
+
 def chunks(it, i, n):
     for k, x in enumerate(it):
         if k % n == i:
@@ -258,6 +451,12 @@ def shards(tier, seed):
         out.append(('G', i, 8 if tier == 'quick' else 32))
     for i in range(16 if tier == 'quick' else 64):
         out.append(('R', i, 16 if tier == 'quick' else 64))
+    for i in range(8):
+        out.append(('S', i, 8))
+    for i in range(13):          # 13: coprime to the period (16) of the shapes
+        out.append(('N', i, 13))
+    for i in range(16):
+        out.append(('K', i, 16))
     return out
 
 
@@ -316,6 +515,15 @@ def run_shard(shard, tier):
     elif fam == 'R':
         for f in chunks(W3.ring_fragments(), i, n):
             run_text(R, 'R', F.render(f), molset('cage', tier))
+    elif fam == 'S':
+        for f in chunks(W4.element_fragments(), i, n):
+            run_text(R, 'S', F.render(f), molset('elements', tier))
+    elif fam == 'N':
+        for shape, f in chunks(W4.star_fragments(tier), i, n):
+            run_star(R, shape, F.render(f), molset('stars', tier))
+    elif fam == 'K':
+        for f in chunks(W4.call_fragments(), i, n):
+            run_calls(R, F.render(f), molset('calls', tier))
     if R.evals and not R.samples:
         R.sample(dict(family=fam, shard=i))
     return R
@@ -328,6 +536,12 @@ def replay(w):
         mols = molset('core', 'quick')
         base = run_text(R, 'replay', w['base_text'], mols)
         run_text(R, 'replay', w['text'], mols, base=base, base_text=w['base_text'])
+        return dict(violates=bool(R.violations),
+                    detail='\n'.join(v['msg'] for v in R.violations) or 'holds')
+    if w['kind'] == 'call':
+        m = Chem.MolFromSmiles(w['smiles'])
+        run_calls(R, w['text'], [(w['smiles'], m, ringref.G(Chem.AddHs(m)))],
+                  forms=[w['form']])
         return dict(violates=bool(R.violations),
                     detail='\n'.join(v['msg'] for v in R.violations) or 'holds')
     if w['smiles'] is None:
